@@ -89,7 +89,7 @@ pub fn gen_probe_spec(c: &mut Chooser, allow_dispose: bool) -> ProbeSpec {
             policy.push(
                 [React::Terminate, React::Terminate, React::Error, React::PullTerminate, React::PullError][c.choose(5)],
             );
-            ProbeSpec { policy, rest: base, pull_cap: 1000, attach: None, late_pulls: false, drop_talkback: false }
+            ProbeSpec { policy, rest: base, pull_cap: 1000, attach: None, poke: None, late_pulls: false, drop_talkback: false }
         },
         _ => {
             let n = 1 + c.choose(6);
@@ -115,7 +115,7 @@ pub fn gen_probe_spec(c: &mut Chooser, allow_dispose: bool) -> ProbeSpec {
                 policy.push(r);
             }
             let rest = [React::Nothing, React::Pull][c.choose(2)];
-            ProbeSpec { policy, rest, pull_cap: 1000, attach: None, late_pulls: false, drop_talkback: false }
+            ProbeSpec { policy, rest, pull_cap: 1000, attach: None, poke: None, late_pulls: false, drop_talkback: false }
         },
     }
 }
@@ -315,6 +315,10 @@ pub fn gen_case_full(c: &mut Chooser, op: &str, prop: &str, small: bool, deep: b
         // a second sink of the same output must have its Pulls answered just the same
         n_probes = 2;
     }
+    if prop == "C15" && matches!(topo, Topo::FromIter(_)) && !small && c.chance(1, 3) {
+        // the same from_iter value subscribed twice (each subscription iterates its own clone)
+        n_probes = 2;
+    }
     if prop == "C07" && matches!(topo, Topo::Unary(_)) && c.chance(1, 3) {
         // the same output value subscribed twice: "a sink" means every sink
         n_probes = 2;
@@ -423,6 +427,15 @@ pub fn gen_case_full(c: &mut Chooser, op: &str, prop: &str, small: bool, deep: b
             }
         }
     }
+    if matches!(topo, Topo::ForEach) && !indep && !credit {
+        // the callback feeds back into a listenable source: from inside `f`, at the k-th datum,
+        // the source emits its next item (possibly its end)
+        for i in 0..n_puppets {
+            if pspecs[i].mode == Mode::Listen && lens[i] > 0 && c.chance(1, 3) {
+                pspecs[i].feedback = Some(c.choose(lens[i]));
+            }
+        }
+    }
     if let Topo::Flatten(n) | Topo::FlattenRepeat(n) = &topo {
         lens[0] = *n;
     }
@@ -479,6 +492,17 @@ pub fn gen_case_full(c: &mut Chooser, op: &str, prop: &str, small: bool, deep: b
             policy[k] = [React::Terminate, React::Error, React::PullTerminate][c.choose(3)];
             probe_specs[0].policy = policy;
         }
+    }
+    if n_probes >= 2 && !credit && !indep && !small && c.chance(1, 4) {
+        // two consumers that know of each other: from inside one of its handlers probe i makes
+        // probe j pull, leave or fail on j's own talkback
+        let i = c.choose(n_probes);
+        let mut j = c.choose(n_probes);
+        if j == i {
+            j = (i + 1) % n_probes;
+        }
+        let what = [React::Pull, React::Pull, React::Terminate, React::Error, React::PullTerminate][c.choose(5)];
+        probe_specs[i].poke = Some((c.choose(3) as u8, 1 + c.choose(4), j, what));
     }
     if let (Topo::FromIter(_), "C15") = (&topo, prop) {
         // robustness clauses of C15: "signals completion exactly once", "does nothing once disposed"
